@@ -234,6 +234,39 @@ static void thread_scenario(void)
 	sx_cover("thread.joined-and-released");
 }
 
+/* pthread_create fails (EAGAIN) at one of three iv_thread_create calls: the failure is reported, the
+ * other threads are unaffected, nothing of the failed attempt is left behind */
+extern int pth_create_calls, pth_create_fail_at;
+static int thr2_ran;
+
+static void thr2_body(void *arg)
+{
+	thr2_ran++;
+}
+
+static void thread_create_fails_scenario(void)
+{
+	int i, k = 1 + sx_choose(3);
+
+	pth_create_calls = 0;
+	pth_create_fail_at = k;
+	for (i = 1; i <= 3; i++) {
+		int ret = iv_thread_create("t", thr2_body, NULL);
+		if (i == k)
+			sx_assert(ret != 0, "C13.iv_thread_create-reported-success-although-pthread_create-failed");
+		else
+			sx_assert(ret == 0, "C13.iv_thread_create-failed");
+	}
+	iv_main();
+	sx_assert(thr2_ran == 2, "C13.thread-never-ran");
+	sx_assert(pth_threads_created == 2 && pth_threads_joined == 2, "C13.iv_main-returned-before-thread-joined");
+	sx_assert(sx_nthreads() == 1, "C13.thread-still-alive-after-iv_main");
+	iv_deinit();
+	sx_assert(k_count_open(1) == 0, "C18.descriptor-leak-after-deinit");
+	sx_leak_check(0);
+	sx_cover("thread.create-failure-survived");
+}
+
 void sx_main(void)
 {
 	int i, burst;
@@ -252,6 +285,10 @@ void sx_main(void)
 		sx_hb_enable();
 	owner_tid = sx_tid();
 	iv_init();
+	if (sx_opt("threadtest", 0) == 2) {
+		thread_create_fails_scenario();
+		return;
+	}
 	if (sx_opt("threadtest", 0)) {
 		thread_scenario();
 		return;
